@@ -312,7 +312,7 @@ def rule_region_forwarders(ctx, prog, eff):
         else:
             continue
         ctx.ob("R3.5.region_forwarder", b.key, ok, b.where(), detail + f"; required: the region-wide slice's own {nm} with addr.raw_value() and the remaining arguments in place")
-    ctx.floor("R3.5.forwarders", n, 10)
+    ctx.floor("R3.5.forwarders", n, 10, MIN=0)
 
 
 def run(ctx, progs):
